@@ -2,6 +2,7 @@
 From Coq Require Import List Bool String Arith ZArith.
 Import ListNotations.
 From HV Require Import lib.Harness model.Schema spec.SchemaS proofs.SchemaP gen.Schemas.
+From HV Require Import model.SchemaSeq model.SchemaFiles spec.SchemaSeqS proofs.SchemaSeqP gen.SchemaOrders.
 Open Scope string_scope.
 
 Lemma hugr_eq : schema_equiv (norm published_hugr) (norm generated_hugr) = true.
@@ -48,3 +49,35 @@ Example published_accepts_and_rejects :
   accepts 60 published_hugr "SerialHugr" (tiny_hugr [] "Modul") = false /\
   accepts 60 published_hugr "SerialHugr" (JObj [("version", JStr "live"); ("nodes", JArr [])]) = false.
 Proof. vm_compute. auto. Qed.
+
+(* ---- rebuild ORDERS (gen/SchemaOrders.v: the schema write_schema writes after every step of each history, one
+   fresh process per history).  Every one of them is the file expected in the state reached. *)
+Lemma orders_ok : forallb (run_ok published init) order_runs = true.
+Proof. vm_compute. reflexivity. Qed.
+Lemma orders_same : Forall (RunSame published init) order_runs.
+Proof.
+  apply Forall_forall. intros r Hin. apply run_ok_sound.
+  exact (proj1 (forallb_forall _ _) orders_ok r Hin).
+Qed.
+(* the histories: each (root, configuration) alone in a fresh process, and every ordered pair of them (equal ones
+   included) as two consecutive steps of some history *)
+Lemma orders_cover : singles_covered (map (map fst) order_runs) && transitions_covered (map (map fst) order_runs) = true.
+Proof. vm_compute. reflexivity. Qed.
+(* the HUGR files hold no definition of the testing root: what (SerialHugr, c) defines is the published HUGR file
+   in EVERY state *)
+Lemma hugr_files_hold_no_testing_root : forall c, def_of (published FHugr c) (root_name FTesting) = None.
+Proof. destruct c; vm_compute; reflexivity. Qed.
+Lemma hugr_file_history_independent : forall st c, expected published st FHugr c = published FHugr c.
+Proof.
+  intros st c. apply expected_no_subst. unfold subst_of, families. cbn [flat_map family_eqb app].
+  rewrite hugr_files_hold_no_testing_root. destruct (st (GRoot FTesting)); reflexivity.
+Qed.
+(* non-vacuity on the real constants: the testing files do hold SerialHugr, and after a strict HUGR rebuild the
+   lax testing file is expected to hold the STRICT SerialHugr definition (a different file) *)
+Example testing_file_after_hugr :
+  def_of (published FTesting false) "SerialHugr" <> None /\
+  json_eqb (expected published (run_steps init [(FHugr, true); (FTesting, false)]) FTesting false)
+           (published FTesting false) = false /\
+  def_of (expected published (run_steps init [(FHugr, true); (FTesting, false)]) FTesting false) "SerialHugr"
+    = def_of (published FHugr true) "SerialHugr".
+Proof. vm_compute. repeat split; discriminate. Qed.
